@@ -12,6 +12,9 @@ stmt :=
   ("block", body) | ("scope", name, body)
   ("macro", name, body) | ("apply", name)
   ("for", var, count, body) | ("if", cond, then_body, else_body|None)
+  ("starx", hole, var, stride, kind)                 *= hole + var * stride      (var: enclosing loop variable)
+  ("macrop", name, param, body) | ("applyp", name, hole)   macro with one parameter, applied to a position hole
+  ("starp", param, addend, kind)                     *= param + addend           (inside a macrop body)
 """
 import z3
 
@@ -46,6 +49,16 @@ def render(skel, indent=""):
             out.append(f"{indent}*= {st[1]}")
         elif k == "at":
             out.append(f"{indent}@= {st[1]}")
+        elif k == "starx":
+            out.append(f"{indent}*= {st[1]} + {st[2]} * {st[3]:#x}")
+        elif k == "starp":
+            out.append(f"{indent}*= {st[1]} + {st[2]:#x}")
+        elif k == "macrop":
+            out.append(f"{indent}.macro {st[1]}({st[2]}) {{")
+            out.append(render(st[3], indent + "  "))
+            out.append(f"{indent}}}")
+        elif k == "applyp":
+            out.append(f"{indent}{st[1]}({st[2]})")
         elif k == "block":
             out.append(f"{indent}{{")
             out.append(render(st[1], indent + "  "))
@@ -80,11 +93,25 @@ def le(term, n):
     return [(term >> (8 * k)) & 0xFF for k in range(n)]
 
 
-def walk(skel, lay, val, macros=None, on_label=None):
+def walk(skel, lay, val, macros=None, on_label=None, env=None):
     """Drive the layout model over the skeleton.  val(name) -> z3 term of a symbol / hole."""
     macros = {} if macros is None else macros
+    env = {} if env is None else env
     for st in skel:
         k = st[0]
+        if k == "starx":
+            lay.star(val(st[1]) + env[st[2]] * st[3], st[4])
+            continue
+        if k == "starp":
+            lay.star(env[st[1]] + st[2], st[3])
+            continue
+        if k == "macrop":
+            macros[st[1]] = (st[2], st[3])
+            continue
+        if k == "applyp":
+            param, body = macros[st[1]]
+            walk(body, lay, val, macros, on_label, dict(env, **{param: val(st[2])}))
+            continue
         if k == "db":
             lay.emit(le(val(st[1]), 1))
         elif k == "dw":
@@ -113,20 +140,20 @@ def walk(skel, lay, val, macros=None, on_label=None):
         elif k == "at":
             lay.at(val(st[1]), st[2])
         elif k == "block":
-            walk(st[1], lay, val, macros, on_label)
+            walk(st[1], lay, val, macros, on_label, env)
         elif k == "scope":
-            walk(st[2], lay, val, macros, on_label)
+            walk(st[2], lay, val, macros, on_label, env)
         elif k == "macro":
             macros[st[1]] = st[2]
         elif k == "apply":
-            walk(macros[st[1]], lay, val, macros, on_label)
+            walk(macros[st[1]], lay, val, macros, on_label, env)
         elif k == "for":
-            for _ in range(st[2]):
-                walk(st[3], lay, val, macros, on_label)
+            for i in range(st[2]):
+                walk(st[3], lay, val, macros, on_label, dict(env, **{st[1]: i}))
         elif k == "if":
             body = st[2] if st[1] else st[3]
             if body:
-                walk(body, lay, val, macros, on_label)
+                walk(body, lay, val, macros, on_label, env)
         else:
             raise ValueError(st)
 
@@ -142,6 +169,14 @@ def holes(skel, acc=None):
         elif k in ("star", "at"):
             if (st[1], st[2]) not in acc[1]:
                 acc[1].append((st[1], st[2]))
+        elif k == "starx":
+            if (st[1], st[4]) not in acc[1]:
+                acc[1].append((st[1], st[4]))
+        elif k == "applyp":
+            if (st[2], "rom") not in acc[1]:
+                acc[1].append((st[2], "rom"))
+        elif k == "macrop":
+            holes(st[3], acc)
         elif k == "block":
             holes(st[1], acc)
         elif k in ("scope", "macro"):
